@@ -74,7 +74,11 @@ class Ctx:
     def need(self, cond: bool, msg: str):
         """Fail closed: the analysis itself cannot proceed (anchor vanished, count below confirmed minimum)."""
         if not cond:
-            raise AnalysisError(msg)
+            # the construct a clause is decided on is not there (deleted, renamed, or rewritten beyond recognition): reported like a failed
+            # minimum count — as a violation that names what is missing — rather than as a broken analysis
+            self.ob(0, "ANCHOR", f"the code this clause is decided on is present: {msg}", False, construct=f"missing: {msg}"[:200],
+                    detail="the rule has nothing to be evaluated on; without the construct it would pass vacuously")
+            raise MissingConstruct(msg)
 
     def count_min(self, label: str, found: int, minimum: int):
         """Fail closed on vacuity: the statements a clause is decided on were confirmed by hand on the pinned tree (`minimum` of them).
